@@ -441,6 +441,8 @@ def widen_fields(text, rules):
     for idx, ch in enumerate(body_m):
         if ch in "([{<":
             d += 1
+        elif ch == ">" and idx > 0 and body_m[idx - 1] == "-":
+            pass   # the arrow of a `fn() -> T` type, not a closing angle bracket
         elif ch in ")]}>":
             d -= 1
         elif ch == "," and d == 0:
@@ -464,6 +466,8 @@ SUBSTS = [
     # (name, regex, replacement) -- identical run-time meaning, trusted, counted
     ("subst:u32::from_le_bytes->vf_u32_from_le_bytes", re.compile(r"\bu32::from_le_bytes\("), "vf_u32_from_le_bytes("),
     ("subst:closure |_| -> |_v|", re.compile(r"\|_\|"), "|_v0|"),
+    # a zero-sized variance marker: `fn() -> C` (function-pointer types are outside this Verus) carries no run-time content
+    ("subst:PhantomData<fn() -> T> -> PhantomData<T>", re.compile(r"PhantomData<fn\(\) -> (\w+)>"), r"PhantomData<\1>"),
 ]
 
 
